@@ -82,6 +82,38 @@ def modelObs (res : List Ammo × Stop) : Option (String × List String) :=
 def obsLine (err : String) (reqs : List String) : String :=
   "err=" ++ err ++ " n=" ++ toString reqs.length ++ " reqs=" ++ ";".intercalate reqs
 
+/-! ### raw format: the `headers` option on top of what `http.ReadRequest` made of the frame
+
+The request text of a raw frame (`m=…,u=…,h=…,hd=…,b=…`) comes from the library (`raw.DecodeRequest` = `http.ReadRequest`,
+run by the harness on each frame).  `RawAmmo.BuildRequest` then applies the provider's `headers` option with
+`EnrichRequestWithHeaders`: a configured header is added only when the request does not have that (canonical) key;
+`Host` is special — it becomes the request's Host only when the frame named none.  Same rule as `mergeCfg` + `mkReq` for
+the uri / uripost formats, here on the canonical text (header values may be multi-valued `v+v`, kept as they are). -/
+
+def insertSortedStr (kv : String × String) : List (String × String) → List (String × String)
+  | [] => [kv]
+  | x :: r => if kv.1 < x.1 then kv :: x :: r else x :: insertSortedStr kv r
+
+def enrichCanon (cfg : Hdrs) (canon : String) : String :=
+  match canon.splitOn "," with
+  | [m, u, h, hd, b] =>
+    let host := (h.drop 2).toString
+    let hdText := (hd.drop 3).toString
+    let hds : List (String × String) :=
+      (if hdText.isEmpty then [] else hdText.splitOn "|").map fun e =>
+        match e.splitOn ":" with
+        | [k, v] => (k, v)
+        | _ => (e, "")
+    let step := fun (acc : String × List (String × String)) (kv : Bytes × Bytes) =>
+      let key := canonKey kv.1
+      let kh := hex key
+      if acc.2.any (fun x => x.1 == kh) then acc
+      else if key == hostKey then (if acc.1.isEmpty then (hex kv.2, acc.2) else acc)
+      else (acc.1, insertSortedStr (kh, hex kv.2) acc.2)
+    let r := cfg.foldl step (host, hds)
+    m ++ "," ++ u ++ ",h=" ++ r.1 ++ ",hd=" ++ "|".intercalate (r.2.map fun x => x.1 ++ ":" ++ x.2) ++ "," ++ b
+  | _ => canon
+
 /-! ### verdict on an observation -/
 
 def fieldNames : List String := ["m", "u", "h", "hd", "b", "t"]
